@@ -774,6 +774,27 @@ let hd default = function
 | [] -> default
 | x :: _ -> x
 
+(** val nth : nat -> 'a1 list -> 'a1 -> 'a1 **)
+
+let rec nth n0 l default =
+  match n0 with
+  | O -> (match l with
+          | [] -> default
+          | x :: _ -> x)
+  | S m -> (match l with
+            | [] -> default
+            | _ :: t -> nth m t default)
+
+(** val nth_error : 'a1 list -> nat -> 'a1 option **)
+
+let rec nth_error l = function
+| O -> (match l with
+        | [] -> None
+        | x :: _ -> Some x)
+| S n1 -> (match l with
+           | [] -> None
+           | _ :: l0 -> nth_error l0 n1)
+
 (** val last : 'a1 list -> 'a1 -> 'a1 **)
 
 let rec last l d =
@@ -1538,15 +1559,17 @@ let assign_inplace pycast arrcast v ps value =
         if list_eq_dec Nat.eq_dec sh (k :: [])
         then let (d, e) = write_cells (pycast v.vdtype) ps cells v.vdata in
              ((with_data v d), e)
-        else (match cast_all (pycast v.vdtype) cells with
-              | Ret cells' ->
-                (match bcast_seq k sh cells' with
-                 | Some cs ->
-                   ((with_data v
-                      (fst (write_cells (fun x -> Ret x) ps cs v.vdata))),
-                     None)
-                 | None -> (v, (Some ValueError)))
-              | Raise e -> (v, (Some e)))
+        else if negb (Nat.eqb (length sh) (S O))
+             then (v, (Some ValueError))
+             else (match cast_all (pycast v.vdtype) cells with
+                   | Ret cells' ->
+                     (match bcast_seq k sh cells' with
+                      | Some cs ->
+                        ((with_data v
+                           (fst (write_cells (fun x -> Ret x) ps cs v.vdata))),
+                          None)
+                      | None -> (v, (Some ValueError)))
+                   | Raise e -> (v, (Some e)))
       | Raise e -> (v, (Some e)))
    | ORange (_, _, _) ->
      (match as_array value with
@@ -1555,15 +1578,17 @@ let assign_inplace pycast arrcast v ps value =
         if list_eq_dec Nat.eq_dec sh (k :: [])
         then let (d, e) = write_cells (pycast v.vdtype) ps cells v.vdata in
              ((with_data v d), e)
-        else (match cast_all (pycast v.vdtype) cells with
-              | Ret cells' ->
-                (match bcast_seq k sh cells' with
-                 | Some cs ->
-                   ((with_data v
-                      (fst (write_cells (fun x -> Ret x) ps cs v.vdata))),
-                     None)
-                 | None -> (v, (Some ValueError)))
-              | Raise e -> (v, (Some e)))
+        else if negb (Nat.eqb (length sh) (S O))
+             then (v, (Some ValueError))
+             else (match cast_all (pycast v.vdtype) cells with
+                   | Ret cells' ->
+                     (match bcast_seq k sh cells' with
+                      | Some cs ->
+                        ((with_data v
+                           (fst (write_cells (fun x -> Ret x) ps cs v.vdata))),
+                          None)
+                      | None -> (v, (Some ValueError)))
+                   | Raise e -> (v, (Some e)))
       | Raise e -> (v, (Some e)))
    | OArr (sh, dt, cells) ->
      (match bcast_arr k sh cells with
@@ -2496,6 +2521,65 @@ let alias_step =
 
 let alias_init_model =
   gen_alias_init_model np_pycast np_arrcast np_infer np_astype_dt
+
+(** val getitem : key -> state -> pyval list outcome **)
+
+let getitem k s =
+  match k with
+  | KName n0 ->
+    if mem n0 s.index
+    then (match assoc n0 s.vars with
+          | Some v -> Ret v.vdata
+          | None -> Raise KeyError)
+    else Raise KeyError
+  | KLabel (n0, l) ->
+    if mem n0 s.index
+    then (match assoc n0 s.vars with
+          | Some v ->
+            (match locate s.span l with
+             | Ret p ->
+               (match nth_error v.vdata p with
+                | Some c -> Ret (c :: [])
+                | None -> Raise IndexError)
+             | Raise e -> Raise e)
+          | None -> Raise KeyError)
+    else Raise KeyError
+  | KSlice (n0, a, b, st) ->
+    if mem n0 s.index
+    then (match assoc n0 s.vars with
+          | Some v ->
+            (match resolve_slice s.span a b st with
+             | Ret a0 ->
+               let (p, step0) = a0 in
+               let (sl, el) = p in
+               (match slice_positions (length v.vdata) sl el step0 with
+                | Some ps -> Ret (map (fun p0 -> nth p0 v.vdata PNone) ps)
+                | None -> Raise ValueError)
+             | Raise e -> Raise e)
+          | None -> Raise KeyError)
+    else Raise KeyError
+  | KTuple3 -> Raise IndexError
+  | KOther -> Raise TypeError
+
+(** val getattr_var : char list -> state -> pyval list outcome **)
+
+let getattr_var n0 s =
+  if mem n0 s.index
+  then (match assoc n0 s.vars with
+        | Some v -> Ret v.vdata
+        | None -> Raise KeyError)
+  else Raise AttributeError
+
+(** val alias_getitem : aobj -> key -> state -> pyval list outcome **)
+
+let alias_getitem am k s =
+  getitem (resolve_key am k) s
+
+(** val alias_getattr_var :
+    aobj -> char list -> state -> pyval list outcome **)
+
+let alias_getattr_var am n0 s =
+  getattr_var (resolve am n0) s
 
 (** val starts_underscore : char list -> bool **)
 
